@@ -1,5 +1,40 @@
-import FunsorVerif.Model.Term
+/-
+  Props/C01.lean — eager evaluation returns the mathematical value of the expression.
+
+  Model/C01.lean: positional named tensors `NT` and the operations of funsor/tensor.py + the
+  bottom-up partial evaluator `peval`.  The theorems live in Props/C01/*.lean:
+
+    Basic.lean    the gather lemma (names ↔ axes bookkeeping)
+    Ops.lean      tensor_sem unary_sem binary_sem reduce_sem subsNum_sem stack_sem lambda_sem getitem_sem …
+    Algebra.lean  XR is a commutative monoid under add/mul/max/min (with ±∞, NaN); fold_unrelated
+    Reduce.lean   eagerReduce_sem (incl. variables absent from the argument, scale_eq_rep)
+    Sound.lean    peval_sound
+  This file: non-vacuity examples.
+-/
+import FunsorVerif.Props.C01.Sound
 namespace FV.Props.C01
-/-- Placeholder until the partial-evaluator theorems land: ravel of an in-range index is defined. -/
-theorem ravel_nil : ravel [] [] = some 0 := rfl
+open FV FV.C01
+
+/-! ### Non-vacuity: concrete tensors satisfying the hypotheses of the lemmas -/
+
+def exA : NT := ofTensor [("i", 2), ("j", 3)] [] #[1, 2, 3, 4, 5, 6]
+def exB : NT := ofTensor [("j", 3), ("k", 2)] [2] #[1, 0, 2, 0, 3, 0, 4, 0, 5, 0, 6, 0]
+def exEnv : Env := [("i", Sem.ofNat 1), ("j", Sem.ofNat 2), ("k", Sem.ofNat 0)]
+
+/-- binary: inputs are lhs inputs then the new rhs inputs; the hypotheses of `binary_sem` hold. -/
+example : ((binary "add" exA exB).map (·.inputs)) = some [("i", 2), ("j", 3), ("k", 2)] := by decide
+example : ((binary "add" exA exB).bind fun r => (preOf r.inputs exEnv)) = some [1, 2, 0] := by decide
+example : ((binary "mul" exB exA).map (·.inputs)) = some [("j", 3), ("k", 2), ("i", 2)] := by decide
+/-- reduce: over a present and an absent variable. -/
+example : ((C01.eagerReduce "add" [("j", 3), ("z", 4)] exA).map (·.inputs)) = some [("i", 2)] := by decide
+example : ((C01.eagerReduce "add" [("j", 3), ("z", 4)] exA).map (·.flat)) = some [24, 60] := by decide +kernel
+example : ((C01.eagerReduce "max" [("z", 4)] exA).map (·.flat)) = some [1, 2, 3, 4, 5, 6] := by decide +kernel
+/-- stack / lambda / getitem / subsNum succeed on non-trivial tensors. -/
+example : ((stack "s" [exA, exA]).map (·.inputs)) = some [("s", 2), ("i", 2), ("j", 3)] := by decide
+example : ((lambda "i" 2 exA).map fun r => (r.inputs, r.shape, r.flat)) = some ([("j", 3)], [2], [1, 4, 2, 5, 3, 6]) := by
+  decide +kernel
+example : ((subsNum [("j", 1)] exA).map fun r => (r.inputs, r.flat)) = some ([("i", 2)], [2, 5]) := by decide +kernel
+example : ((getitem 0 exB (ofNumber 1)).map fun r => (r.inputs, r.shape, r.flat)) =
+    some ([("j", 3), ("k", 2)], [], [0, 0, 0, 0, 0, 0]) := by decide +kernel
+
 end FV.Props.C01
